@@ -60,9 +60,9 @@ def run(prop, tier):
         results = []
         first = 0
         F.selftest_codec()
-        paths, metas, lst = F.make_corpus(os.path.join(wd, "corpus"), 200 if q else 3000, first=300000)
-        plan = [("c13", False, 260 if q else 4000, ["--maxdesc", "255"]), ("c13", True, 340 if q else 6000, []), ("mixed", False, 100 if q else 1500, ["--start", lst, "--maxops", "16"]),
-                ("c10", True, 100 if q else 1500, ["--start", lst, "--startpct", "50"])]
+        paths, metas, lst = F.make_corpus(os.path.join(wd, "corpus"), 200 if q else 10000, first=300000)
+        plan = [("c13", False, 260 if q else 15000, ["--maxdesc", "255"]), ("c13", True, 340 if q else 20000, []), ("mixed", False, 100 if q else 5000, ["--start", lst, "--maxops", "16"]),
+                ("c10", True, 100 if q else 5000, ["--start", lst, "--startpct", "50"])]
         for wi, (profile, wild, cnt, extra) in enumerate(plan):
             out = os.path.join(wd, "h%d" % wi)
             args = ["--profile", profile, "--maxops", "40" if q else "60"] + (["--wild"] if wild else []) + extra
